@@ -486,6 +486,31 @@ def run(ctx):
             else:
                 r11.ok("%s advances the state machine before every test of the state" % f.qname, "path exploration")
 
+    # ------------------------------------------------------------------ R13
+    # attempts that fail at once (unreachable network, unbindable local address) produce no event: no descriptor stays
+    # registered, no timer armed.  So the function that starts the attempts also polls their outcome before it returns.
+    r13 = ctx.rule("C04.R13", "the outcome of the connect attempts is polled in the call that started them (an immediate failure has no wake-up source)")
+    btf = [x for x in tables if x.proto == "btcp"][0].slots["connect"].file
+    starters = [g for g in P.functions if g.file == btf and any(True for _ in g.calls("tconnect_connect"))]
+    pollers = {g for g in P.functions if g.file == btf and any(True for _ in g.calls("tconnect_get_connected_fd"))}
+    if not starters or not pollers:
+        raise Broken("C04.R13: starter/poller of the connect tracker not found in %s" % btf)
+    for g in starters:
+        r13.instance(g.qname)
+        polled = {b.id for b in g.blocks.values() for e in b.elems if g.nodes[e]["k"] == "call" and any(d in pollers for d in P.callees(g, e)[0])}
+        failed = {b.id for b, i, e, lhs, rhs, op in g.stores() if rhs is not None and g.fields_of(lhs)[-1:] == ("state",) and enum_name(g, rhs) in ("conn_state_bad", "conn_state_closed")}
+        ok13 = True
+        for c in g.calls("tconnect_connect"):
+            wb = g.where()[c][0]
+            succ = [s_ for s_ in C.succs(g, wb)] or [wb]
+            if not C.must_pass(g, [wb], lambda bb: bb != wb and (bb in polled or bb in failed)) and not (wb in polled):
+                ok13 = False
+        if ok13:
+            r13.ok("%s polls the tracker's outcome (or fails the connection) on every path after starting it" % g.qname, "must-pass")
+        else:
+            r13.violation("%s:attempts-not-polled" % g.name, "%s starts the connect attempts and can return without polling their outcome: when every attempt has failed at once "
+                          "nothing is registered any more and no timer runs, so a non-blocking caller waiting on xcm_fd() never learns that the connection failed" % g.name, loc=g.file)
+
     # ------------------------------------------------------------------ R12
     # the timers are absolute expiry times handed to a timerfd: the clock they are computed on must be the timerfd's clock
     r12 = ctx.rule("C04.R12", "timer expiry times are taken from the clock the timerfd runs on")
